@@ -49,15 +49,16 @@ Qed.
 Ltac lgt := first [rewrite lget_lset_same | rewrite lget_lset_other by discriminate].
 
 (* block 1: ctype *)
-Lemma enc_b1_ok : forall m extra fs ps fr md ct ht ne,
-  mget m "#0" = Some (res_obj md ct ht ne) -> -1 <= wrap I8 ct < 128 ->
+Lemma enc_b1_ok : forall m extra fs oa fpv outv keyv pe fr md ct ht ne,
+  mget m "#0" = Some (res_obj md ct ht ne) -> -1 <= wrap I8 ct < 128 -> pv fpv -> pv outv ->
+  let ps := pps oa fpv outv keyv pe in
   exists extra',
   exec cli_prog [] 60 (enc_b 0) (mk m (gl extra) fs ps fr) =
   if wrap I8 ct =? -1 then Ok (Normal, mk (mset m "#0" (res_obj md 0 ht ne)) (gl extra') fs ps fr)
   else if wrap I8 ct <? 5 then Ok (Normal, mk m (gl extra') fs ps fr)
   else Ok (Returned (Some VNull), mk m (gl extra') fs ps fr).
 Proof.
-  intros m extra fs ps fr md ct ht ne Hres Hct.
+  intros m extra fs oa fpv outv keyv pe fr md ct ht ne Hres Hct Hpf Hpo ps.
   unfold enc_b, enc_blk, post_if, gv_post. cbn [seq_head seq_drop gv_body f_body Src_cli.f_get_v_opt_2].
   pose proof (wrap_I32_small (wrap I8 ct) ltac:(lia)) as W32.
   destruct (wrap I8 ct =? -1) eqn:E.
@@ -72,19 +73,21 @@ Proof.
       all: xrun lgt. all: xrun lgt.
     + xrun ltac:(first [rewrite Hres | rewrite res_load_ctype | rewrite W32 | rewrite E]).
       { eapply x_call; [evr2 ltac:(first [rewrite Hres | rewrite res_load_ctype | rewrite W32]); reflexivity | reflexivity | reflexivity | eapply exec_mono; [exact Hp|lia] | stn]. }
+      all: xrun lgt. { apply closeFiles_call; [reflexivity | lia | assumption | assumption]. }
       all: xrun lgt. all: xrun lgt. all: xrun lgt.
 Qed.
 
 (* block 2: htype *)
-Lemma enc_b2_ok : forall m extra fs ps fr md ct ht ne,
-  mget m "#0" = Some (res_obj md ct ht ne) -> -1 <= wrap I8 ht < 128 ->
+Lemma enc_b2_ok : forall m extra fs oa fpv outv keyv pe fr md ct ht ne,
+  mget m "#0" = Some (res_obj md ct ht ne) -> -1 <= wrap I8 ht < 128 -> pv fpv -> pv outv ->
+  let ps := pps oa fpv outv keyv pe in
   exists extra',
   exec cli_prog [] 60 (enc_b 1) (mk m (gl extra) fs ps fr) =
   if wrap I8 ht =? -1 then Ok (Normal, mk (mset m "#0" (res_obj md ct 0 ne)) (gl extra') fs ps fr)
   else if wrap I8 ht <? 3 then Ok (Normal, mk m (gl extra') fs ps fr)
   else Ok (Returned (Some VNull), mk m (gl extra') fs ps fr).
 Proof.
-  intros m extra fs ps fr md ct ht ne Hres Hct.
+  intros m extra fs oa fpv outv keyv pe fr md ct ht ne Hres Hct Hpf Hpo ps.
   unfold enc_b, enc_blk, post_if, gv_post. cbn [seq_head seq_drop gv_body f_body Src_cli.f_get_v_opt_2].
   pose proof (wrap_I32_small (wrap I8 ht) ltac:(lia)) as W32.
   destruct (wrap I8 ht =? -1) eqn:E.
@@ -99,6 +102,7 @@ Proof.
       all: xrun lgt. all: xrun lgt.
     + xrun ltac:(first [rewrite Hres | rewrite res_load_htype | rewrite W32 | rewrite E]).
       { eapply x_call; [evr2 ltac:(first [rewrite Hres | rewrite res_load_htype | rewrite W32]); reflexivity | reflexivity | reflexivity | eapply exec_mono; [exact Hp|lia] | stn]. }
+      all: xrun lgt. { apply closeFiles_call; [reflexivity | lia | assumption | assumption]. }
       all: xrun lgt. all: xrun lgt. all: xrun lgt.
 Qed.
 
@@ -148,11 +152,13 @@ Qed.
 
 (* block 4: the input file *)
 Lemma enc_b4_null : forall m extra fs oa outv keyv pe fr,
+  pv outv ->
   exec cli_prog [] 60 (enc_b 3) (mk m (gl extra) fs (pps oa VNull outv keyv pe) fr) =
   Ok (Returned (Some VNull), mk m (gl extra) fs (pps oa VNull outv keyv pe) fr).
 Proof.
-  intros. unfold enc_b, enc_blk, post_if, gv_post. cbn [seq_head seq_drop gv_body f_body Src_cli.f_get_v_opt_2].
-  unfold mk, gl, pps. xrun fail.
+  intros m extra fs oa outv keyv pe fr Hpo. unfold enc_b, enc_blk, post_if, gv_post. cbn [seq_head seq_drop gv_body f_body Src_cli.f_get_v_opt_2].
+  unfold mk, gl. xrun fail. { apply closeFiles_call; [reflexivity | lia | first [assumption | exact Logic.I] | first [assumption | exact Logic.I]]. }
+  all: xrun fail. all: xrun fail.
 Qed.
 Lemma enc_b4_set : forall m extra fs oa nm off outv keyv pe fr,
   exec cli_prog [] 60 (enc_b 3) (mk m (gl extra) fs (pps oa (VPtr nm off) outv keyv pe) fr) =
@@ -173,27 +179,30 @@ Proof.
   unfold mk, gl, pps. xrun fail.
 Qed.
 Lemma enc_b5_long : forall m extra fs oa fpv keyv pe fr,
-  mget m "fout_too_long" = Some {| o_ty := TBool; o_cells := [1] |} ->
+  mget m "fout_too_long" = Some {| o_ty := TBool; o_cells := [1] |} -> pv fpv ->
   exec cli_prog [] 60 (enc_b 4) (mk m (gl extra) fs (pps oa fpv VNull keyv pe) fr) =
   Ok (Returned (Some VNull), mk m (gl extra) fs (pps oa fpv VNull keyv pe) fr).
 Proof.
-  intros m extra fs oa fpv keyv pe fr Hf. unfold enc_b, enc_blk, post_if, gv_post. cbn [seq_head seq_drop gv_body f_body Src_cli.f_get_v_opt_2].
-  unfold mk, gl, pps. xrun ltac:(first [rewrite Hf | rewrite load_tbool]).
+  intros m extra fs oa fpv keyv pe fr Hf Hpf. unfold enc_b, enc_blk, post_if, gv_post. cbn [seq_head seq_drop gv_body f_body Src_cli.f_get_v_opt_2].
+  unfold mk, gl. xrun ltac:(first [rewrite Hf | rewrite load_tbool]). { apply closeFiles_call; [reflexivity | lia | first [assumption | exact Logic.I] | first [assumption | exact Logic.I]]. }
+  all: xrun fail. all: xrun fail. all: xrun fail.
 Qed.
 Lemma enc_b5_open : forall m extra D gp F fp oa fpv keyv pe fr fdone (b : bool) ftodo,
   mget m "fout_too_long" = Some {| o_ty := TBool; o_cells := [0] |} ->
-  F = fdone ++ b2z b :: ftodo -> fp = List.length fdone ->
+  F = fdone ++ b2z b :: ftodo -> fp = List.length fdone -> pv fpv ->
   exists extra',
   exec cli_prog [] 60 (enc_b 4) (mk m (gl extra) (gfiles D gp F fp) (pps oa fpv VNull keyv pe) fr) =
   if b then Ok (Normal, mk m (gl extra') (gfiles D gp F (S fp)) (pps oa fpv (VPtr (streamname fp) 0) keyv pe) fr)
   else Ok (Returned (Some VNull), mk m (gl extra') (gfiles D gp F (S fp)) (pps oa fpv VNull keyv pe) fr).
 Proof.
-  intros m extra D gp F fp oa fpv keyv pe fr fdone b ftodo Hf HF Hfp.
+  intros m extra D gp F fp oa fpv keyv pe fr fdone b ftodo Hf HF Hfp Hpf.
   unfold enc_b, enc_blk, post_if, gv_post. cbn [seq_head seq_drop gv_body f_body Src_cli.f_get_v_opt_2].
-  unfold mk, gl, pps. destruct b; cbn [b2z] in HF; eexists.
-  - xrun ltac:(first [rewrite Hf | rewrite load_tbool]). { xprim prim_fopen_ok. }
+  unfold mk, gl. destruct b; cbn [b2z] in HF; eexists.
+  - unfold pps. xrun ltac:(first [rewrite Hf | rewrite load_tbool]). { xprim prim_fopen_ok. }
     all: xrun lgt. all: xrun lgt. all: xrun lgt.
-  - xrun ltac:(first [rewrite Hf | rewrite load_tbool]). { xprim prim_fopen_null. }
+  - unfold pps. xrun ltac:(first [rewrite Hf | rewrite load_tbool]). { xprim prim_fopen_null. }
+    all: xrun lgt. all: xrun lgt.
+    { apply (closeFiles_call _ m _ _ oa fpv VNull keyv pe fr); [reflexivity | lia | assumption | exact Logic.I]. }
     all: xrun lgt. all: xrun lgt. all: xrun lgt.
 Qed.
 
@@ -269,7 +278,8 @@ Lemma b1_inv : forall p lng dl m fpv outv keyv fr extra fs oa pe,
 Proof.
   intros p lng dl m fpv outv keyv fr extra fs oa pe I.
   pose proof (wrap_I8_byte (ctype p) ltac:(destruct I; lia)) as WB.
-  destruct (enc_b1_ok m extra fs (pps oa fpv outv keyv pe) fr _ _ _ _ (i_res _ _ _ _ _ _ _ _ I) ltac:(rewrite WB; destruct I; lia)) as (extra' & Hp).
+  destruct (enc_b1_ok m extra fs oa fpv outv keyv pe fr _ _ _ _ (i_res _ _ _ _ _ _ _ _ I) ltac:(rewrite WB; destruct I; lia)
+              (vrel_pv _ _ (i_fp _ _ _ _ _ _ _ _ I)) (vrel_pv _ _ (i_out _ _ _ _ _ _ _ _ I))) as (extra' & Hp). cbv zeta in Hp.
   rewrite WB in Hp. unfold ct_opt.
   destruct (ctype p =? -1) eqn:E.
   - eexists. exists extra'. split; [exact Hp|]. unfold set_ct. inv_tac I; lia.
@@ -289,7 +299,8 @@ Lemma b2_inv : forall p lng dl m fpv outv keyv fr extra fs oa pe,
 Proof.
   intros p lng dl m fpv outv keyv fr extra fs oa pe I.
   pose proof (wrap_I8_byte (htype p) ltac:(destruct I; lia)) as WB.
-  destruct (enc_b2_ok m extra fs (pps oa fpv outv keyv pe) fr _ _ _ _ (i_res _ _ _ _ _ _ _ _ I) ltac:(rewrite WB; destruct I; lia)) as (extra' & Hp).
+  destruct (enc_b2_ok m extra fs oa fpv outv keyv pe fr _ _ _ _ (i_res _ _ _ _ _ _ _ _ I) ltac:(rewrite WB; destruct I; lia)
+              (vrel_pv _ _ (i_fp _ _ _ _ _ _ _ _ I)) (vrel_pv _ _ (i_out _ _ _ _ _ _ _ _ I))) as (extra' & Hp). cbv zeta in Hp.
   rewrite WB in Hp. unfold ct_opt.
   destruct (htype p =? -1) eqn:E.
   - eexists. exists extra'. split; [exact Hp|]. unfold set_ht. inv_tac I; lia.
@@ -329,7 +340,7 @@ Proof.
   pose proof (i_fp _ _ _ _ _ _ _ _ I) as HF. unfold vrel in HF.
   destruct (is_some (fp p)).
   - destruct HF as (nm & ->). apply enc_b4_set.
-  - subst fpv. apply enc_b4_null.
+  - subst fpv. apply enc_b4_null. exact (vrel_pv _ _ (i_out _ _ _ _ _ _ _ _ I)).
 Qed.
 
 Lemma b5_inv : forall p lng dl m fpv outv keyv fr extra D gp fdone oa pe,
@@ -347,8 +358,8 @@ Proof.
   - destruct HO as (nm & ->). do 3 eexists. split; [apply enc_b5_set|].
     unfold set_out. destruct I; constructor; cbn [mode ctype htype fp out key no_echo dflt_ok vrel]; auto. eexists; reflexivity.
   - subst outv. rewrite HD. destruct lng; cbn [negb andb b2z] in *.
-    + eexists. apply enc_b5_long. exact HT.
-    + destruct (enc_b5_open m extra D gp (fdone ++ [b2z dl]) (List.length fdone) oa fpv keyv pe fr fdone dl [] HT eq_refl eq_refl) as (extra' & Hp).
+    + eexists. apply enc_b5_long; [exact HT|exact (vrel_pv _ _ (i_fp _ _ _ _ _ _ _ _ I))].
+    + destruct (enc_b5_open m extra D gp (fdone ++ [b2z dl]) (List.length fdone) oa fpv keyv pe fr fdone dl [] HT eq_refl eq_refl (vrel_pv _ _ (i_fp _ _ _ _ _ _ _ _ I))) as (extra' & Hp).
       destruct dl.
       * do 3 eexists. split; [exact Hp|].
         unfold set_out. destruct I; constructor; cbn [mode ctype htype fp out key no_echo dflt_ok vrel]; auto. eexists; reflexivity.
